@@ -438,7 +438,15 @@ func (m *Manager) processConnect(params *connection.ConnectParams, authMngr *aut
 		} else {
 			var reason mqttp.ReasonCode
 
-			if perm, status := authMngr.Password(params.ID, string(params.Username), string(params.Password)); errors.Is(status, vlauth.StatusAllow) {
+			perm, status := authMngr.Password(params.ID, string(params.Username), string(params.Password))
+			if errors.Is(status, vlauth.StatusAllow) && params.Will != nil &&
+				!errors.Is(perm.ACL(params.ID, string(params.Username), params.Will.Topic(), vlauth.AccessWrite), vlauth.StatusAllow) {
+				// the Will is a publish of this user like any other: one on a topic the user may not write
+				// is neither routed nor retained, the CONNECT that carries it is not authorised
+				status = vlauth.StatusDeny
+			}
+
+			if errors.Is(status, vlauth.StatusAllow) {
 				reason = mqttp.CodeSuccess
 				acl = perm
 			} else {
